@@ -282,3 +282,45 @@ def c13_nft_group_not_split(ctx, v):
         return v.undecided("the group rebroadcast was never reached")
     v.covers_total += 1
     v.covers_sat += 1
+
+
+def c13_atr_inputs_checked_against_ledger(ctx, v):
+    """Transaction::validate_against_utxoset for a transaction of any type other than Fee (ATR
+    included — the rebroadcast commitment does not cover the location of an input, so this
+    check is what binds a rebroadcast to the output it retires) with 1..=2 inputs: it answers
+    true only if Slip::validate(utxoset) was asked about every input and answered true."""
+    body = ctx.body(r"transaction::<impl at [^>]*>::validate_against_utxoset$")
+    ok = 0
+    for n in (1, 2):
+        ex = ctx.executor(loop_bound=n + 3, inline="auto", no_inline=[r"Slip::validate$"])
+        ex.pure = [r".*"]
+        ins = [L.sym_slip(ctx, ex, "in%d" % i) for i in range(n)]
+        tt = ex.fresh_value("TransactionType", "type")
+        tx = ctx.mk_struct(ex, "Transaction", "tx", **{"from": S.Seq(ins, "Slip"), "transaction_type": tt})
+        st = S.State()
+        st.pc.extend([L.enum_in_range(tt, L.TX_TYPES), z3.Not(L.enum_is(ctx, tt, "TransactionType", "Fee"))])
+        outs = ex.run(body, [S.Ref(S.Cell(tx)), S.Ref(S.Cell(S.Opaque("utxoset", "AHashMap")))], st)
+        v.paths += len(outs)
+        for o in outs:
+            if o.kind in ("unsupported", "unwound", "path-limit"):
+                return v.undecided("n=%d %s %s" % (n, o.kind, o.info))
+            if o.kind != "return":
+                continue
+            res = o.value if z3.is_bool(o.value) else (o.value.bv != 0)
+            calls = [e for e in o.events if e[0] == "call" and re.search(r"Slip::validate$", e[1])]
+            verdicts = [c[3] if z3.is_bool(c[3]) else (c[3].bv != 0) for c in calls]
+            v.queries += 1
+            if len(calls) < n:
+                r, m = ex.model_for(o.pc, res)
+                if r == z3.sat:
+                    tname = [nm for nm, d in ctx.enums["TransactionType"] if d == m.eval(tt.discr.bv, model_completion=True).as_long()]
+                    v.fail("n=%d: a %s transaction passes the ledger check although only %d of its %d inputs were looked up in the utxoset" % (n, tname[0] if tname else "?", len(calls), n))
+                continue
+            r, m = ex.model_for(o.pc, z3.And(res, z3.Not(z3.And(*verdicts))))
+            v.queries += 1
+            if r == z3.sat:
+                v.fail("n=%d: the ledger check answers true although an input was reported unspendable" % n)
+            else:
+                ok += 1
+    v.covers_total += 1
+    v.covers_sat += 1 if ok else 0
